@@ -29,6 +29,7 @@ func runSurveyorScenario(c *Ctx, nops int, zeroTime bool) {
 	recvBegan := map[int]uint32{} // call -> id of the survey current when Recv was called
 	var issued []uint32
 	tag := 0
+	longSlept := false
 	addPipe := func() {
 		next++
 		if e.AddPipe(next) == "ok" {
@@ -71,6 +72,9 @@ func runSurveyorScenario(c *Ctx, nops int, zeroTime bool) {
 				}
 			}
 		}
+	}
+	if q := c.R.Pick(128, 128, 0, 1, 2); q != 128 {
+		e.SetOpt(0, mangos.OptionWriteQLen, fmt.Sprint(q), q) // small per-respondent queues: a stalled respondent overflows
 	}
 	addPipe()
 	if zeroTime {
@@ -176,7 +180,12 @@ func runSurveyorScenario(c *Ctx, nops int, zeroTime bool) {
 			}
 		case k < 22: // let the survey time elapse
 			if !zeroTime {
-				e.Sleep(90)
+				if !longSlept && c.R.Intn(3) == 0 {
+					longSlept = true
+					e.Sleep(400) // long enough that every timer armed so far is overdue
+				} else {
+					e.Sleep(90)
+				}
 				look()
 				// a Recv parked on an expired survey must have been released
 				for cx2, call := range parked {
